@@ -1080,6 +1080,7 @@ pub fn c03(tier: Tier) -> i32 {
     };
     explore_alpha("C03", &mut ctx, &env, &profiles::events(&["2"]), n_ev, &mut acc);
     explore_alpha("C03", &mut ctx, &env, &profiles::events_fx(), n_fx, &mut acc);
+    explore_alpha("C03", &mut ctx, &env, &profiles::events_reduced(), n_ev + 2, &mut acc);
     explore_alpha("C03", &mut ctx, &env, &profiles::two_sec(), n_two, &mut acc);
     explore_alpha("C03", &mut ctx, &env, &crate::perm::fills_alphabet(), n_two + 1, &mut acc);
     for k in ["legs:same-day", "legs:30-day", "legs:section-104", "shape:adjustment-while-shares-held", "shape:adjustment-with-no-shares-held", "shape:30-day-leg-across-split"] {
@@ -1138,6 +1139,7 @@ pub fn c11(tier: Tier) -> i32 {
     };
     explore_alpha("C11", &mut ctx, &env, &profiles::events(&["2"]), n_ev, &mut acc);
     explore_alpha("C11", &mut ctx, &env, &profiles::two_sec(), n_two, &mut acc);
+    explore_alpha("C11", &mut ctx, &env, &profiles::events_reduced(), n_ev + 2, &mut acc);
     for k in ["adjustment-differential(position>0)", "adjustment-before-any-acquisition", "dividend-differential", "cancelling-pair-inserted", "bracket:return-absorbable", "bracket:return-exceeds-all-expenditure"] {
         ctx.require(acc.get(k) > 0, &format!("no state exhibited {k}"));
     }
@@ -1153,12 +1155,12 @@ pub fn c12(tier: Tier) -> i32 {
     let env = Env::new();
     let mut acc = Acc::new();
     let (n_m, n_two) = match tier {
-        Tier::Quick => (3, 3),
-        Tier::Thorough => (4, 4),
+        Tier::Quick => (3, 4),
+        Tier::Thorough => (4, 5),
     };
     explore_alpha("C12", &mut ctx, &env, &profiles::match1(&["2"], false), n_m, &mut acc);
     explore_alpha("C12", &mut ctx, &env, &profiles::two_sec(), n_two, &mut acc);
-    explore_alpha("C12", &mut ctx, &env, &profiles::events(&["2"]), n_two, &mut acc);
+    explore_alpha("C12", &mut ctx, &env, &profiles::events(&["2"]), n_m, &mut acc);
     ctx.require(acc.get("extension-accepted") > 0 && acc.get("extension-rejected") > 0, "extensions must include accepted and rejected ones");
     ctx.bound = json!({"prefix_match1_max_events": n_m, "prefix_two_sec_max_events": n_two, "suffix_max_events": if tier == Tier::Quick { 1 } else { 2 }});
     ctx.explanation = "Edges prefix -> prefix+suffix of the ledger graph: for every accepted prefix, every sequence of up to k events from {BUY, SELL 3, SELL 99, SPLIT 2, UNSPLIT 2, DIVIDEND} dated T+31, T+32, T+45 (T = last prefix date) is appended and the real calculate() run again: every prefix disposal must reappear with identical leg list, cost and gain; totals of years that gained no disposal are unchanged; a refusal must be caused by (and name) an appended date. transitions = extensions executed.".into();
